@@ -9,6 +9,19 @@ from . import common
 
 ID = 'C01'
 LEVEL = 'exploration'
+# scenario variants and fault kinds mixed into the seeded part (reported in
+# the evidence; DESIGN 14.6 says where each came from)
+VARIANTS = [
+    "cut sweep with pauses of 1 s / 31 s / 400 s",
+    "second session on the same object (user or exception handler)",
+    "negative threshold put in force through options",
+    "re-entrant forced write from an early outgoing listener",
+    "all packets of a session written forced",
+    "send() stalls at chosen send indices (slow peer)",
+    "protocol 47 play-state Set Compression in mid-stream",
+    "350..3000 packets queued in one go",
+    "VarInt-boundary and threshold+-1 sizes"
+]
 RUNS = {'quick': 9000, 'thorough': 300000}
 WALL_CAP = {'quick': 200, 'thorough': 3300}
 
